@@ -228,4 +228,29 @@ class Check(PropertyCheck):
                 res.append(("elapsed", f"elapsed_time = {sched.metadata['elapsed_time']} < 0"))
             if sched.metadata.get("solved_by") != "DispatchingRuleSolver":
                 res.append(("solved_by", f"solved_by = {sched.metadata.get('solved_by')!r}"))
+            # a solver that gets its result by CALLING other solvers (best of several rules): the schedule it hands out is stamped
+            # with ITS class name and ITS elapsed time (which covers the inner solvers' time)
+            import time as _time
+            from job_shop_lib.dispatching.rules import DispatchingRuleSolver
+
+            class BestOfRulesSolver(DispatchingRuleSolver):
+                def solve(self, instance, dispatcher=None):
+                    cands = [DispatchingRuleSolver(dispatching_rule=r, ready_operations_filter=self.ready_operations_filter)(instance)
+                             for r in ("most_work_remaining", "shortest_processing_time")]
+                    return min(cands, key=lambda c: c.makespan())
+            ticks = iter(range(0, 10 ** 6, 3))
+            orig = _time.perf_counter
+            _time.perf_counter = lambda: next(ticks)        # every reading 3 units after the previous one
+            try:
+                outer = BestOfRulesSolver(ready_operations_filter=impl._make_filter())(impl.instance)
+            finally:
+                _time.perf_counter = orig
+            if outer.metadata.get("solved_by") != "BestOfRulesSolver":
+                res.append(("solved_by", f"a BestOfRulesSolver (which calls two DispatchingRuleSolvers inside) handed out a schedule with "
+                            f"solved_by = {outer.metadata.get('solved_by')!r}"))
+            et = outer.metadata.get("elapsed_time")
+            if et is None or et < 9:
+                # the outer call spans both inner calls: at least their two start/stop pairs lie between its own readings
+                res.append(("elapsed", f"the outer solver's elapsed_time is {et} although its call spanned two inner solver calls "
+                            "(clock: +3 per reading, at least 3 readings inside)"))
         return res
